@@ -82,7 +82,9 @@ func (tdsChan *Channel) VerifChannelId() int { return tdsChan.channelId }
 func (tdsChan *Channel) VerifSetCurPacketNr(n int) { tdsChan.curPacketNr = n }
 
 // VerifQueueLens returns the fill levels of the package and error queues.
-func (tdsChan *Channel) VerifQueueLens() (int, int) { return len(tdsChan.packageCh), len(tdsChan.errCh) }
+func (tdsChan *Channel) VerifQueueLens() (int, int) {
+	return len(tdsChan.packageCh), len(tdsChan.errCh)
+}
 
 // VerifNextErr returns a queued channel error, if any.
 func (tdsChan *Channel) VerifNextErr() error {
@@ -145,4 +147,6 @@ func VerifSetWide(pkg Package, wide bool) {
 func VerifLoginPack(config *LoginConfig) (Package, error) { return config.pack() }
 
 // VerifRsaEncrypt exposes rsaEncrypt.
-func VerifRsaEncrypt(pemKey, nonce, msg []byte) ([]byte, error) { return rsaEncrypt(pemKey, nonce, msg) }
+func VerifRsaEncrypt(pemKey, nonce, msg []byte) ([]byte, error) {
+	return rsaEncrypt(pemKey, nonce, msg)
+}
